@@ -148,6 +148,10 @@ def run_case(sc):
         if not sc["subgrid"]:
             g = copy.deepcopy(conf2); g.pop("grid", None); g["output"]["filename"] = str(d / "out_nogrid.nc")
             spellings["v2_no_grid_section"] = ("yaml", g)
+        # the version key in its spellings (2, 2.0, "2.0", "2"); all mean version 2
+        for tag, ver, fmt in (("v2toml_version_string", "2.0", "toml"), ("v2yaml_version_float", 2.0, "yaml"), ("v2yaml_version_str", "2", "yaml")):
+            vv = copy.deepcopy(conf2); vv["version"] = ver; vv["output"]["filename"] = str(d / f"out_{tag}.nc")
+            spellings[tag] = (fmt, vv)
         e = copy.deepcopy(conf2); e["warm_start"] = {}; e["output"]["filename"] = str(d / "out_explicit.nc")
         e.setdefault("grid", dict(module="ladim.ROMS", filename=sorted(globmod.glob(str(d / "forcing_*.nc")))[0]))
         spellings["v2_explicit_sections"] = ("yaml", e)
@@ -190,6 +194,8 @@ def run_case(sc):
                 out["trees"][name]["configured"] = canon(configure(p))
             except SystemExit as ex:
                 out["trees"][name]["configured"] = dict(error=f"exit{ex.code}")
+            except Exception as ex:  # noqa: BLE001
+                out["trees"][name]["configured"] = dict(error=type(ex).__name__)
             st = lab.run(str(p), d)
             files = scen.read_outputs(d, sc, pattern=Path(conf["output"]["filename"] if "output" in conf else conf["files"]["output_file"]).stem + "*.nc")
             for f in files:
